@@ -29,6 +29,7 @@ partial def treeOfJ : J → Option Tree
 
 partial def treeToJ : Tree → J
   | .leaf .none => .null
+  | .leaf .missing => .null
   | .leaf (.int i) => .int i
   | .leaf (.str s) => .str s
   | .dict f items => .obj [("k", .str "dict"), ("s", .bool f.sealed), ("w", .bool f.accW),
@@ -109,6 +110,8 @@ def opOfJ (j : J) : Option Op := do
   | "o_setattr" => do pure (.oSetAttr (← k) (← v))
   | "o_delattr" => do pure (.oDelAttr (← k))
   | "rebind" => do pure (.rebind (← (j.get? "pairs").bind pairsOfJ))
+  | "sym_setparent" => pure .symSetParent
+  | "sym_setpath" => pure .symSetPath
   | _ => none
 
 def errName : Err → String
@@ -120,7 +123,7 @@ def resToJ : Res → J
 
 def bad (msg : String) : J := .obj [("bad_request", .str msg)]
 
-/-- One step of a history: a call, a `seal`, or a `set_accessor_writable`. -/
+/-- One step of a history on one tree: a call, a `seal`, a `sym_seal`, or a `set_accessor_writable`. -/
 def runStep (t : Tree) (j : J) : Option (Tree × J) := do
   let recv ← (j.get? "recv").bind pathOfJ
   match j.getStr? "kind" with
@@ -142,12 +145,25 @@ def runStep (t : Tree) (j : J) : Option (Tree × J) := do
     pure (mapAt (setAccW b) t recv, .str "ok")
   | _ => none
 
-def runSteps : Tree → List J → Option (List J)
-  | _, [] => some []
-  | t, s :: rest => do
-    let (t', r) ← runStep t s
-    let more ← runSteps t' rest
-    pure (.obj [("res", r), ("tree", treeToJ t')] :: more)
+/-- The forest: the tree the caller holds and, optionally, the external value its `pg.Ref`
+elements refer to (`"in": "ext"` addresses a node of that one). Nothing done to one tree reaches
+the other. -/
+def runSteps : Tree → Option Tree → List J → Option (List J)
+  | _, _, [] => some []
+  | t, ext, s :: rest => do
+    let inExt := s.getStr? "in" == some "ext"
+    let (t', ext', r) ← (if inExt then do
+        let e ← ext
+        let (e', r) ← runStep e s
+        pure (t, some e', r)
+      else do
+        let (t', r) ← runStep t s
+        pure (t', ext, r))
+    let more ← runSteps t' ext' rest
+    let out := [("res", r), ("tree", treeToJ t')] ++ (match ext' with
+      | some e => [("ext", treeToJ e)]
+      | none => [])
+    pure (.obj out :: more)
 
 def guardRecToJ (r : GuardRec) : J :=
   .obj [("overridden", .bool r.overridden), ("baseMutates", .bool r.baseMutates),
@@ -160,7 +176,7 @@ def handle (j : J) : J :=
   | some "run" =>
     match (j.get? "tree").bind treeOfJ, j.getArr? "steps" with
     | some t, some steps =>
-      match runSteps t steps with
+      match runSteps t ((j.get? "ext").bind treeOfJ) steps with
       | some outs => .obj [("steps", .arr outs)]
       | none => bad "run: step"
     | _, _ => bad "run"
